@@ -307,7 +307,7 @@ func rollingCfg(r *vs.Rand) scfg {
 	}
 	cfg.Children = []childSpec{c}
 	cfg.GenerateSelector = r.Chance(25)
-	cfg.Finalize = r.Chance(30)
+	cfg.Finalize = r.Chance(45)
 	if r.Chance(30) {
 		// custom revision-history paths; spec.extra is never set on these parents (an unrecorded earlier path)
 		cfg.FieldPaths = [][]string{{"spec.image"}, {"spec.extra", "spec.image"}}[r.Intn(2)]
@@ -389,9 +389,9 @@ func runRollout(r *vs.Rand, i int, seed uint64, out *vs.Out, crash bool) {
 	cfg := rollingCfg(r)
 	replicas := 1 + r.Intn(4)
 	hookMode := ""
-	if cfg.Finalize && r.Chance(60) {
+	if cfg.Finalize && r.Chance(75) {
 		// the finalize answer depends on the (revisioned) image: true only for the newer images, or only for the oldest one
-		hookMode = r.Pick([]string{"finalize-latest", "finalize-latest", "finalize-oldest"})
+		hookMode = r.Pick([]string{"finalize-latest", "finalize-oldest"})
 	}
 	sc := newCleanScenario(cfg, replicas, "v1", hookMode)
 	defer sc.w.close()
